@@ -1070,7 +1070,18 @@ fn gen_text(r: &mut Rng, kind: TextKind, valid_cbor: &[u8]) -> String {
                             .join(",")
                     ),
                     10 => format!("{{\"int\":{}}}", j(r, 0)),
-                    _ => format!("{{\"map\":[{{\"k\":{},\"v\":{}}}]}}", j(r, d - 1), j(r, d - 1)),
+                    _ => {
+                        // detailed-schema map entries: the two members rightly or wrongly named, one or three members
+                        let (a, b) = (j(r, d - 1), j(r, d - 1));
+                        match r.below(8) {
+                            0 => format!("{{\"map\":[{{\"k\":{},\"value\":{}}}]}}", a, b),
+                            1 => format!("{{\"map\":[{{\"key\":{},\"v\":{}}}]}}", a, b),
+                            2 => format!("{{\"map\":[{{\"k\":{}}}]}}", a),
+                            3 => format!("{{\"map\":[{{\"k\":{},\"v\":{},\"x\":1}}]}}", a, b),
+                            4 => format!("{{\"map\":[{{\"a\":{},\"b\":{}}}]}}", a, b),
+                            _ => format!("{{\"map\":[{{\"k\":{},\"v\":{}}}]}}", a, b),
+                        }
+                    }
                 }
             }
             /// wallet-template documents (the Wallet schema of encode_json_str_to_native_script): valid
